@@ -285,6 +285,15 @@ class CSSImportRule(cssrule.CSSRule):
 
             # all possible exceptions are ignored
             try:
+                # a sheet which is being loaded already (it imports itself,
+                # directly or via other sheets) is not loaded again
+                ancestor = self.parentStyleSheet
+                while ancestor is not None:
+                    if ancestor.href == fullhref:
+                        raise ValueError('Circular @import of %r.' % fullhref)
+                    owner = ancestor.ownerRule
+                    ancestor = owner.parentStyleSheet if owner is not None else None
+
                 usedEncoding, enctype, cssText = \
                     self.parentStyleSheet._resolveImport(fullhref)
 
